@@ -124,6 +124,70 @@ func garbage(r *core.Run) {
 			}
 		}
 	}
+	// packets with very long paths (up to the 63 hop fields a segment can have), as a local host or a
+	// neighbour can send them: the first hop field is this AS's own (valid or with a broken MAC), the
+	// rest is arbitrary. Whatever the router answers (error replies quote the packet and reverse the
+	// whole path) must come out without a panic and well-formed.
+	for i := 0; i < 4 && !r.Failed(); i++ {
+		a := w.ASes[r.Choice("long.as", len(w.ASes))]
+		ids := a.SortedIfIDs()
+		if len(ids) == 0 {
+			continue
+		}
+		eg := a.Intfs[ids[r.Choice("long.egress", len(ids))]]
+		nseg := 1 + r.Choice("long.segs", 3)
+		total := 2*nseg + r.Choice("long.hops", 64-2*nseg)
+		ts := uint32(time.Now().Add(-time.Minute).Unix())
+		var segs []FSeg
+		left := total
+		for sgi := 0; sgi < nseg; sgi++ {
+			n := left - 2*(nseg-1-sgi)
+			if sgi < nseg-1 {
+				n = 2 + r.Choice("long.seglen", n-1)
+			}
+			n = min(n, 63)
+			left -= n
+			fs := FSeg{ConsDir: r.Chance("long.consdir", 1, 2), TS: ts, SegID: uint16(r.Choice("long.segid", 1<<16))}
+			if sgi == 0 {
+				fs.ConsDir = true
+			}
+			for h := 0; h < n; h++ {
+				fs.Hops = append(fs.Hops, FHop{In: uint16(r.Choice("long.in", 1<<16)), Eg: uint16(r.Choice("long.eg", 1<<16)), Exp: uint8(r.Choice("long.exp", 256))})
+			}
+			segs = append(segs, fs)
+		}
+		fromHost := r.Chance("long.fromhost", 2, 3)
+		first := &segs[0].Hops[0]
+		first.Exp = 63
+		if fromHost {
+			first.In, first.Eg = 0, eg.ID
+		} else {
+			first.In, first.Eg = eg.ID, uint16(r.Choice("long.eg0", 1<<16))
+		}
+		if !r.Chance("long.badmac", 1, 2) {
+			first.AS, first.Beta = a, segs[0].SegID
+		}
+		rawPath := forgeRaw(r, segs, 0, 0)
+		src, dst := a, w.ASes[r.Choice("long.dst", len(w.ASes))]
+		if !fromHost {
+			src = eg.Remote.AS
+		}
+		pkt, err := BuildPacket(PktSpec{SrcIA: src.IA, DstIA: dst.IA, Src: hostAddr(src.Hosts[0]), Dst: hostAddr(dst.Hosts[0]), RawPath: rawPath,
+			SrcPort: 40000, DstPort: 40001, Payload: r.Tape.Bytes("long.pld", r.Choice("long.pldlen", 1200)), TC: uint8(r.Choice("tc", 256))})
+		if err != nil {
+			panic(core.InfraError{Msg: "long path packet: " + err.Error()})
+		}
+		in := Ingress{Kind: InHost, Src: a.Hosts[0].UDPAddr(40000)}
+		rt := eg.Router
+		if !fromHost {
+			in = Ingress{Kind: InExt, IfID: eg.ID}
+		}
+		r.Logf("long path: %d hop fields in %d segments at %s %s from host=%v, %d bytes", total, nseg, a.IA, rt.Name, fromHost, len(pkt))
+		w.Send(rt, in, pkt, nil)
+		n++
+		r.Covered(fmt.Sprintf("longpath/hops%d", total/8*8))
+		r.Probe("c08-long-path-packet")
+	}
 	r.Nontrivial = n > 0
 	r.Sample = map[string]any{"ases": len(w.ASes), "flows": len(flows), "mutated_datagrams": n, "scmp_authentication": w.AuthSCMP}
 }
